@@ -24,6 +24,7 @@ import (
 	"sort"
 	"strconv"
 	"strings"
+	"sync"
 	"time"
 
 	"github.com/sirupsen/logrus"
@@ -367,10 +368,26 @@ func (d *drv) runAsync(t int, u *Universe, ops []op) {
 	acg := calc.NewAsyncCalcGraph(conf, []chan<- any{out}, nil, calc.NewLookupsCache())
 	vf := calc.NewValidationFilter(acg, conf)
 	gotInSync := make(chan struct{})
+	// The graph's goroutine cannot be stopped and may flush again after this trace is over: the recorder logs only
+	// while the trace is open (the mutex makes "check open + log" atomic with closing), afterwards it just drains.
+	var mu sync.Mutex
+	open := true
+	defer func() {
+		mu.Lock()
+		open = false
+		mu.Unlock()
+	}()
 	go func() {
+		seen := false
 		for m := range out {
-			d.log.Emit("emit", map[string]any{"m": project(m)})
-			if p := project(m); p["kind"] == "insync" {
+			p := project(m)
+			mu.Lock()
+			if open {
+				d.log.Emit("emit", map[string]any{"m": p})
+			}
+			mu.Unlock()
+			if p["kind"] == "insync" && !seen {
+				seen = true
 				close(gotInSync)
 			}
 		}
